@@ -23,7 +23,7 @@ from ._autojac import as_container
 
 RULE = ("history = sequence of 1..3 steps over one graph, >=1 step a torchjd call. backward family (templates "
         "nosave / save / mixed: ops that save no tensor such as x*2, ops that do such as x*x, sin, exp): steps "
-        "jd = torchjd.backward(T, A, inputs=[a,b], retain_graph=r, parallel_chunk_size=k), tb = "
+        "(private: y1 and y2 share no node besides the leaves, both with saved tensors) jd = torchjd.backward(T, A, inputs=[a,b], retain_graph=r, parallel_chunk_size=k), tb = "
         "torch.autograd.backward(T, ones, inputs=[a,b], retain_graph=r), ag = torch.autograd.grad(T, [a,b], ones, "
         "retain_graph=r) with T in {[y1],[y2],[y1,y2]}, r in {F,T}, k in {None,1,2}. mtl family (trunk / heads each "
         "with or without saved tensors, heads sharing no node besides the features): steps mtl = mtl_backward(all "
@@ -41,14 +41,14 @@ RULE = ("history = sequence of 1..3 steps over one graph, >=1 step a torchjd cal
         "/ tuple / one-shot iterator / generator (field cont). "
         "distinct = (family, template, variant, history); non-trivial = a "
         "torchjd step is followed by another step (its effect on the graph is observed)")
-BOUNDS = "histories of <= 3 calls; 3 + 4 program templates; 2 inputs / 2 shared params, 2 outputs / 2..3 tasks"
+BOUNDS = "histories of <= 3 calls; 4 + 4 program templates; 2 inputs / 2 shared params, 2 outputs / 2..3 tasks"
 EXHAUSTIVE = ("thorough: ALL histories of length <= 3 containing a torchjd call over the step alphabets above "
-              "(28 steps for the backward family x 3 templates, 22 steps for the mtl family x 4 templates); ALL "
+              "(28 steps for the backward family x 4 templates, 22 steps for the mtl family x 4 templates); ALL "
               "histories of length <= 2 containing a torchjd call over the extended mtl alphabet (k up to 3, probes "
               "of every task, agf) x 4 templates x every variant of VARIANTS (dead / empty / frozen patterns over 2 "
               "and 3 tasks)")
 
-BW_TEMPLATES = ["nosave", "save", "mixed"]
+BW_TEMPLATES = ["nosave", "save", "mixed", "private"]
 MTL_TEMPLATES = ["save_save", "nosave_nosave", "save_nosave", "nosave_save"]  # trunk_heads
 AGGS = [{"name": "Sum"}, {"name": "Constant", "kind": "distinct"}, {"name": "UPGrad"}]
 
@@ -182,6 +182,16 @@ def cases(tier, seed, focus=None):
                 "seed": r2.randrange(17), "dtype": r2.choice(["float64", "float32"]), "cont": r2.choice(CONTAINERS)}
         _quick_variant(case, shape, r2)
         out.append(case)
+    # directed: an UNRETAINED (or retained) chunked torchjd call over both tensors, then a probe of ONE tensor, on every
+    # backward template - in particular 'private', where freeing only part of the graph is observable
+    for tpl in BW_TEMPLATES:
+        for k in (None, 1, 2, 3):
+            for probe_t in ([0], [1]):
+                r2 = random.Random(rng2.randrange(10**9))
+                h = [{"op": "jd", "t": [0, 1], "r": r2.random() < 0.2, "k": k},
+                     {"op": r2.choice(["ag", "tb"]), "t": probe_t, "r": r2.random() < 0.5}]
+                out.append({"fam": "bw", "tpl": tpl, "steps": h, "agg": r2.choice(AGGS), "seed": r2.randrange(17),
+                            "dtype": r2.choice(["float64", "float32"]), "cont": r2.choice(CONTAINERS)})
     for c in out:
         yield c
 
@@ -248,6 +258,10 @@ def build_bw(tpl, seed, dtype, var=None):
         t = (a * a).sum() + (b * b).sum()
         y1 = torch.cat([n.unsqueeze(0), (n + n).unsqueeze(0), (n + n + n).unsqueeze(0)]) + a.flip(0)
         y2 = t * 1.5 + n
+    elif tpl == "private":  # y1 and y2 share NO node besides the leaves, and both sub-graphs hold saved tensors: freeing
+        # the graph of one of them (a sweep that differentiates only some of the tensors) leaves the other one usable
+        y1 = torch.stack([(a * a).sum() * b.exp().sum(), (a.sin() * a).sum(), (b * b).sum()])
+        y2 = (a.exp().sum() * (b * b * b).sum()).tanh()
     else:
         raise KeyError(tpl)
     outs = [y1, y2]
